@@ -2,6 +2,7 @@
 import Verif.Common.Proto
 import Verif.Common.SemJson
 import Verif.C07.Model
+import Verif.C07.Api
 open Lean Verif.Proto Verif.Sem Verif.Sem.J Verif.C07
 
 namespace Verif.C07.Driver
@@ -20,6 +21,25 @@ def ofLeq (j : Json) : Except String (Var × Var) := do
   | [a, b] => pure (← ofVar a, ← ofVar b)
   | _ => throw "bad leq"
 
+/-- `[types|null, expressed|null]` -/
+def ofArgOpt (j : Json) : Except String (Option String × Option Bool) := do
+  match (← j.getArr?).toList with
+  | [t, e] => pure (← optOf (·.getStr?) t, ← optOf (·.getBool?) e)
+  | _ => throw "bad argument option"
+
+/-- a scope map observed on the real code (labels with predication ids, in the real order) -/
+def ofObsPredScopes (m : MRS) (j : Json) : Except String (List (Var × List Pred)) := do
+  (← j.getArr?).toList.mapM (fun e => do
+    match (← e.getArr?).toList with
+    | [l, ids] =>
+      let ps ← (← ids.getArr?).toList.mapM (fun i => do
+        let v ← ofVar i
+        match m.preds.find? (fun p => p.1 = v) with
+        | some p => pure p
+        | none => throw "observed scope names a predication that does not exist")
+      pure (← ofVar l, ps)
+    | _ => throw "bad observed scope")
+
 def handleMRS (j : Json) : Except String Json := do
   let m ← ofMRS (← j.getObjVal? "m")
   let leqs ← (← arrOrEmpty j "leqs").mapM ofLeq
@@ -32,7 +52,31 @@ def handleMRS (j : Json) : Except String Json := do
   let edges := symm m.graphEdges
   let startsToTry := if m.ids.length ≤ 12 then m.ids
     else (m.ids.take 1) ++ ((m.ids.drop (m.ids.length / 2)).take 1) ++ (m.ids.reverse.take 1)
-  pure (Json.mkObj [
+  -- round 6: option plumbing
+  let jArgMap (a : List (Var × List (Role × Var))) : Json :=
+    jList (fun e : Var × List (Role × Var) =>
+      Json.arr #[jVar e.1, jList (fun a : Role × Var => Json.arr #[Json.str a.1, jVar a.2]) e.2]) a
+  let jScargs (a : List (Var × List (Role × String × Var))) : Json :=
+    jList (fun e : Var × List (Role × String × Var) =>
+        Json.arr #[jVar e.1, jList (fun a : Role × String × Var =>
+          Json.arr #[Json.str a.1, Json.str a.2.1, jVar a.2.2]) e.2]) a
+  -- `m.descendants` computed once: `representativesBy m k = representativesFrom m m.descendants k` (by
+  -- definition) and `m.representatives = representativesBy m m.repKey` (`representativesBy_default`)
+  let dres := m.descendants
+  let menu ← (← arrOrEmpty j "args_menu").mapM ofArgOpt
+  let prios ← (← arrOrEmpty j "prio").mapM (fun x => x.getStr?)
+  let conjPart ← match j.getObjVal? "obs_conj" with
+    | .ok (Json.arr a) => do
+      let obs ← ofObsPredScopes m (Json.arr a)
+      pure [("scargs_conj", jScargs (scopalArgumentsWith m (dkeys obs))),
+            ("desc_conj", jExcept jScopeMap (descendantsWith m obs))]
+    | _ => pure []
+  let extra : List (String × Json) := [
+    ("args_menu", jList (fun o : Option String × Option Bool => jArgMap (argumentsMRS m o.1 o.2)) menu),
+    ("scargs_default", jScargs (scopalArgumentsWith m m.labels)),
+    ("reps_prio", jList (fun k : String => jExcept jScopeMap (representativesFrom m dres (priorityMenu m k))) prios)]
+    ++ conjPart
+  pure (Json.mkObj ([
     ("ids", jList jVar m.ids),
     ("connected", Json.bool w.connected),
     ("connected_any_start", Json.bool (startsToTry.all (fun s =>
@@ -50,8 +94,8 @@ def handleMRS (j : Json) : Except String Json := do
           Json.arr #[Json.str a.1, Json.str a.2.1, jVar a.2.2]) e.2]) (scopalArguments m)),
     ("conjoin", jExcept jScopeMap (conjoinMRS m leqs)),
     ("descendants", jExcept (fun d : List (Var × List Pred) =>
-        jList (fun s : Var × List Pred => Json.arr #[jVar s.1, jPredIds s.2]) d) m.descendants),
-    ("reps", jExcept jScopeMap m.representatives)])
+        jList (fun s : Var × List Pred => Json.arr #[jVar s.1, jPredIds s.2]) d) dres),
+    ("reps", jExcept jScopeMap (representativesFrom m dres m.repKey))] ++ extra))
 
 def dErrTag : DErr → String
   | .keyError => "KeyError"
@@ -86,7 +130,12 @@ def handleDMRS (j : Json) : Except String Json := do
   let jArgs (a : Except DErr (List (Int × List (Role × Int)))) : Json :=
     jDExcept (fun m => jList (fun e : Int × List (Role × Int) =>
       Json.arr #[jInt e.1, jList (fun a : Role × Int => Json.arr #[Json.str a.1, jInt a.2]) e.2]) m) a
-  let base := [("scopes", scopes), ("args_all", jArgs (d.arguments none)),
+  let menu ← (← arrOrEmpty j "args_menu").mapM ofArgOpt
+  let base := [("args_menu", jList (fun o : Option String × Option Bool => jArgs (argumentsDMRS d o.1 o.2)) menu),
+               ("scargs_raw", jDExcept (fun m => jList (fun e : Int × List (Role × String × Int) =>
+                  Json.arr #[jInt e.1, jList (fun a : Role × String × Int =>
+                    Json.arr #[Json.str a.1, Json.str a.2.1, jInt a.2.2]) e.2]) m) (scopalArgumentsRaw d)),
+               ("scopes", scopes), ("args_all", jArgs (d.arguments none)),
                ("args_ns", jArgs (d.arguments (some "xeipu"))),
                ("is_quantifier", jList (fun n : Node => Json.bool (d.isQuantifier n.id)) d.nodes)]
   match j.getObjVal? "obs" with
